@@ -1,7 +1,11 @@
 package main
 
 import (
+	"bufio"
 	"bytes"
+	"context"
+	"net/http"
+	"net/netip"
 	"encoding/base64"
 	"encoding/binary"
 	"fmt"
@@ -15,6 +19,7 @@ import (
 	"github.com/database64128/shadowsocks-go/conn"
 	"github.com/database64128/shadowsocks-go/httpproxy"
 	"github.com/database64128/shadowsocks-go/netio"
+	"github.com/database64128/shadowsocks-go/router"
 	"github.com/database64128/shadowsocks-go/socks5"
 	"github.com/database64128/shadowsocks-go/ss2022"
 	"github.com/database64128/shadowsocks-go/ssnone"
@@ -130,7 +135,8 @@ func socks5Hello(r *common.Rng, auth bool) []byte {
 
 var httpHosts = []string{"example.com", "example.com:443", "1.1.1.1", "1.1.1.1:80", "[2606:4700::1111]", "[2606:4700::1111]:443", "[", "]", "[]", "[:]",
 	":", "::", "a:", ":80", "a:b", "a:0", "a:65536", "a:99999999999999999999", "[::1", "::1]", "[::1]:", "[::1]x:80", "a]:[b", strings.Repeat("a", 255), strings.Repeat("a", 256), strings.Repeat("a.", 200) + ":80",
-	"\x00", "a\x00b:80", "%zz", "a b"}
+	"\x00", "a\x00b:80", "%zz", "a b", "[fe80::1%eth0]:80", "[fe80::1%25eth0]", "[fe80::1%eth0]", "[::1%]:80", "[::ffff:1.2.3.4]:0", "[::ffff:1.2.3.4%z]:53",
+	"0.0.0.0:0", "[::]:0", "1.2.3.4:0", "1.2.3.4.:80", "0x7f.1:80", "1.2.3.4:080", "example.com:+80", "example.com:0x50", "[1.2.3.4]:80", "[example.com]:80"}
 
 func httpRequest(r *common.Rng, auth bool) []byte {
 	host := common.Pick(r, httpHosts)
@@ -204,7 +210,44 @@ func ss2022Request(c Case) []byte {
 	if c.N == 4 {
 		ev[len(ev)-1] ^= 1
 	}
-	return append(out, ev...)
+	out = append(out, ev...)
+	// payload chunks after the handshake (PS selects the variant): an authenticated peer can still send hostile framing
+	chunk := func(length uint16, payload []byte, badLenTag, badPayloadTag bool) {
+		lb := make([]byte, 2, 2+16)
+		binary.BigEndian.PutUint16(lb, length)
+		el := sc.EncryptInPlace(lb)
+		if badLenTag {
+			el[len(el)-1] ^= 1
+		}
+		out = append(out, el...)
+		if payload != nil {
+			pb := make([]byte, len(payload), len(payload)+16)
+			copy(pb, payload)
+			ep := sc.EncryptInPlace(pb)
+			if badPayloadTag {
+				ep[len(ep)-1] ^= 1
+			}
+			out = append(out, ep...)
+		}
+	}
+	switch c.PS {
+	case 1:
+		chunk(0, nil, false, false)
+	case 2:
+		chunk(65535, nil, false, false)
+		out = append(out, make([]byte, 10)...)
+	case 3:
+		chunk(1, []byte{7}, false, false)
+		chunk(4000, make([]byte, 4000), false, false)
+		chunk(65535, make([]byte, 65535), false, false)
+	case 4:
+		chunk(100, make([]byte, 100), false, true)
+	case 5:
+		chunk(100, make([]byte, 100), true, false)
+	case 6:
+		chunk(100, make([]byte, 99), false, false) // advertised length != sealed length
+	}
+	return out
 }
 
 func init() {
@@ -304,7 +347,9 @@ func init() {
 				if req.PendingConn != nil {
 					_ = req.PendingConn.Abort(conn.DialResult{Code: conn.DialResultCodeECONNREFUSED})
 				}
-				return "ok " + renderAddr(req.Addr)
+				// everything computed afterwards: route the address the HTTP parser produced (zones, odd names, port 0)
+				routeEverything(req.Addr)
+				return "ok " + renderAddrZ(req.Addr)
 			})
 			return out
 		}})
@@ -312,7 +357,8 @@ func init() {
 	// Shadowsocks 2022 TCP server: garbage, and requests sealed with the real key carrying hostile plaintext
 	register(engine{name: "ss2022-hs", share: 50,
 		gen: func(r *common.Rng, i int) Case {
-			c := Case{Entry: "ss2022-hs", Pre: true, Csid: r.U64(), TsOff: common.Pick(r, []int64{0, 0, 10, -10}), Flag: r.Chance(1, 4)}
+			c := Case{Entry: "ss2022-hs", Pre: true, Csid: r.U64(), TsOff: common.Pick(r, []int64{0, 0, 10, -10}), Flag: r.Chance(1, 4),
+				PS: common.Pick(r, []int{0, 0, 0, 1, 2, 3, 4, 5, 6}), PL: common.Pick(r, []int{1, 100, 70000})}
 			pt := maybeMutate(r, tcpVarHeader(r))
 			if len(pt) > 65535 { // the fixed-length header advertises the length in 16 bits
 				pt = pt[:65535]
@@ -349,7 +395,16 @@ func init() {
 				if err != nil {
 					return "err " + classify(err)
 				}
-				return fmt.Sprintf("ok %s %s", renderAddr(req.Addr), hexf(req.Payload))
+				res := fmt.Sprintf("ok %s %s", renderAddr(req.Addr), hexf(req.Payload))
+				if sc, err := req.PendingConn.Proceed(); err == nil { // read the post-handshake chunks with a small / medium / large buffer
+					buf := make([]byte, max(c.PL, 1))
+					for k := 0; k < 80000; k++ {
+						if _, err := sc.Read(buf); err != nil {
+							break
+						}
+					}
+				}
+				return res
 			})
 			return out
 		},
@@ -358,5 +413,128 @@ func init() {
 				return ""
 			}
 			return "tcpvar " + hexf(c.bytes())
+		}})
+}
+
+// renderAddrZ is renderAddr that keeps an IPv6 zone visible.
+func renderAddrZ(a conn.Addr) string {
+	if a.IsValid() && a.IsIP() && a.IP().Zone() != "" {
+		return renderAddr(a) + "%" + a.IP().Zone()
+	}
+	return renderAddr(a)
+}
+
+var everythingRouter *RouterCase
+
+// routeEverything sends an address through a router that has one route per criterion kind and port representation.
+func routeEverything(a conn.Addr) {
+	if everythingRouter == nil {
+		var many []string
+		for p := 2; p < 80; p += 3 {
+			many = append(many, fmt.Sprint(p))
+		}
+		everythingRouter = &RouterCase{SrcPort: 40000, Resolver: map[string]string{hx([]byte("example.com")): "1.2.3.4"}, Routes: []RouteGen{
+			{ToPorts: []uint16{9}}, {ToRanges: "100-200,300-400", InvToPorts: true, Network: "udp"}, {ToRanges: joinComma(many), Network: "udp"},
+			{ToDomains: []string{hx([]byte("nomatch.test"))}}, {ToDomains: []string{hx([]byte("example.com"))}, Expected: []string{"10.0.0.0/8"}},
+			{ToPrefixes: []string{"10.0.0.0/8", "fe00::/7"}, NoResolve: true, Network: "udp"}, {ToPrefixes: []string{"10.0.0.0/8"}, Network: "udp"},
+			{ToRanges: joinComma(many), InvToPorts: true, ToPrefixes: []string{"192.0.2.0/24", "2001:db8::/32"}, InvToPrefix: true, NoResolve: true, Network: "udp"},
+		}}
+	}
+	rt, err := everythingRouter.build()
+	if err != nil {
+		panic("routeEverything: " + err.Error())
+	}
+	defer rt.Close()
+	ri := router.RequestInfo{SourceAddrPort: netip.MustParseAddrPort("203.0.113.9:40000"), TargetAddr: a}
+	_, _ = rt.GetTCPClient(context.Background(), ri)
+	_, _ = rt.GetUDPClient(context.Background(), ri)
+}
+
+// ---- hostHeaderToAddr differential: plain-HTTP request with a hostile Host value through ServerHandle ----
+
+func hostHdrRequest(c Case) []byte {
+	return append(append([]byte("GET / HTTP/1.1\r\nHost: "), c.bytes()...), "\r\n\r\n"...)
+}
+
+// what net/http makes of the request (the model takes its verdict and req.Host as given)
+func hostHdrParsed(c Case) (host string, ok bool) {
+	req, err := http.ReadRequest(bufio.NewReader(bytes.NewReader(hostHdrRequest(c))))
+	if err != nil || req.Method == http.MethodConnect {
+		return "", false
+	}
+	return req.Host, true
+}
+
+func optAddr(a conn.Addr, err error) string {
+	if err != nil {
+		return "none"
+	}
+	return renderAddr(a)
+}
+
+func init() {
+	logger := zap.NewNop()
+	register(engine{name: "hosthdr", share: 20,
+		gen: func(r *common.Rng, i int) Case {
+			h := []byte(common.Pick(r, httpHosts))
+			if r.Chance(1, 3) {
+				h = mutate(r, h)
+			}
+			return Case{Entry: "hosthdr", Pre: true, Hex: hx(h)}
+		},
+		fixed: func() []Case {
+			var cs []Case
+			for _, h := range httpHosts {
+				cs = append(cs, Case{Entry: "hosthdr", Pre: true, Hex: hx([]byte(h))})
+			}
+			return cs
+		},
+		impl: func(c Case) string {
+			if _, ok := hostHdrParsed(c); !ok {
+				return "skip"
+			}
+			srv, _ := (&httpproxy.ServerConfig{}).NewProxyServer()
+			b := hostHdrRequest(c)
+			out, _ := overPipe(b, []int{len(b)}, false, func(pc netio.Conn) string {
+				req, err := srv.HandleStream(pc, logger)
+				if err != nil {
+					return "err host"
+				}
+				if req.PendingConn != nil {
+					_ = req.PendingConn.Abort(conn.DialResult{})
+				}
+				routeEverything(req.Addr)
+				if req.Addr.IsIP() && req.Addr.IP().Zone() != "" {
+					return "ok zoned"
+				}
+				return "ok " + renderAddr(req.Addr)
+			})
+			return out
+		},
+		line: func(c Case) string {
+			host, ok := hostHdrParsed(c)
+			if !ok {
+				return ""
+			}
+			// the parameters of the model: netip.ParseAddr / conn.ParseAddr results on the strings it will ask about
+			inner := host
+			if len(host) >= 2 {
+				inner = host[1 : len(host)-1]
+			}
+			ipOf := func(s string) string {
+				ip, err := netip.ParseAddr(s)
+				if err != nil {
+					return "none"
+				}
+				if ip.Zone() != "" {
+					return "zoned"
+				}
+				return renderIP(ip, 0)
+			}
+			pa := optAddr(conn.ParseAddr(host))
+			if a, err := conn.ParseAddr(host); err == nil && a.IsIP() && a.IP().Zone() != "" {
+				pa = "zoned"
+			}
+			return fmt.Sprintf("hosthdr %s %s %s %s", hexf([]byte(host)), ipOf(host), ipOf(inner), pa)
 		}})
 }
